@@ -1326,10 +1326,19 @@ func wireEmitOnceKeys(w *World, wc *wireCtx, r *Report, prop string) {
 //
 //	definitions  emission sites whose constant text is "local function <prefix>" followed by the packet's name;
 //	uses         emission sites whose constant text contains "<prefix>" followed by a name verb and "(" (a call);
-//	demand       if there are uses, then either the definitions are emitted in an order computed by a dependencies-first walk (the
-//	             collection the definition loop ranges over is returned by a function that keeps a visited set, descends into the
-//	             packets of by-name object fields and of match pairs, and appends a packet only after the descent), or every
-//	             name is declared ahead of all definitions (an emission site "local <prefix><name>" without "function").
+//	demand       if there are uses, then (1) the name at the definitions and the name at the uses are the same term over the packet's
+//	             name (luaNameForms: helpers unfolded, a name parameter replaced by what the call sites pass), and (2) either the
+//	             definitions are emitted in an order computed by a dependencies-first walk (the collection the definition loop
+//	             ranges over is returned by a function that keeps a visited set, descends into the packets of by-name object fields
+//	             and of match pairs - directly or as elements of a callee list computed first - and appends a packet only after
+//	             the descent), or every name is declared ahead of all definitions (an emission site "local <prefix><name>"
+//	             without "function").
+//
+// The definition loop is a call site of a defining emitter (the function with the definition site, or a function that hands its own
+// packet parameter on to one) whose packet is an element of a collection. A collection that holds nothing but the packets of object
+// attributes gathered from fields (the objects declared inline in one packet, as a flat list) is not the loop over the declared
+// packets; for it the demand is that the list is innermost-first (no function it comes from appends an object and afterwards what a
+// descent gathers), because the outer object's function calls the inner one's.
 func c15HelpersDefinedFirst(w *World, wc *wireCtx, r *Report) {
 	const rule = "C15/helpers-defined-before-use"
 	own := wc.anchors["lua"]["own"]
@@ -1343,6 +1352,7 @@ func c15HelpersDefinedFirst(w *World, wc *wireCtx, r *Report) {
 		fn     *ssa.Function
 		ins    ssa.Instruction
 		format string
+		args   ssa.Value // the variadic operand slice
 	}
 	var formats []fsite
 	for _, fn := range own {
@@ -1362,7 +1372,11 @@ func c15HelpersDefinedFirst(w *World, wc *wireCtx, r *Report) {
 				return
 			}
 			if k, ok := c.Common().Args[fi].(*ssa.Const); ok && k.Value != nil && k.Value.Kind() == constant.String {
-				formats = append(formats, fsite{fn, ins, constant.StringVal(k.Value)})
+				var va ssa.Value
+				if fi+1 < len(c.Common().Args) {
+					va = c.Common().Args[fi+1]
+				}
+				formats = append(formats, fsite{fn, ins, constant.StringVal(k.Value), va})
 			}
 		})
 	}
@@ -1375,6 +1389,33 @@ func c15HelpersDefinedFirst(w *World, wc *wireCtx, r *Report) {
 	if len(prefixes) == 0 {
 		r.note("%s: the Lua generator defines no per-packet local functions", rule)
 		return
+	}
+	// nameOperands: the operands of the %s verbs that stand behind "<prefix>" and in front of "(" in the format of a site
+	nameOperands := func(f fsite, prefix string) []ssa.Value {
+		re := regexp.MustCompile(`(^|[^A-Za-z_0-9])` + regexp.QuoteMeta(prefix) + `%s\(`)
+		ops := variadicOperands(f.args)
+		var out []ssa.Value
+		for _, loc := range re.FindAllStringIndex(f.format, -1) {
+			at := loc[1] - len(`%s(`)
+			// the verb's index: verbs in front of it
+			k := 0
+			for i := 0; i < at; i++ {
+				if f.format[i] != '%' {
+					continue
+				}
+				if i+1 < len(f.format) && f.format[i+1] == '%' {
+					i++
+					continue
+				}
+				k++
+			}
+			if k < len(ops) && ops[k] != nil {
+				out = append(out, ops[k])
+			} else {
+				out = append(out, nil)
+			}
+		}
+		return out
 	}
 	for _, prefix := range sortedKeys(prefixes) {
 		defs := prefixes[prefix]
@@ -1402,29 +1443,79 @@ func c15HelpersDefinedFirst(w *World, wc *wireCtx, r *Report) {
 			r.pass(rule, key, w.instrPos(defs[0].ins), "never called from another emitted function")
 			continue
 		}
+		// the name a function is defined under and the name it is called by are the same function of the packet's name
+		nf := &luaNameForms{w: w, scope: own}
+		defForms, useForms := map[string]bool{}, map[string]bool{}
+		for _, d := range defs {
+			for _, op := range nameOperands(d, prefix) {
+				for s := range nf.forms(op, nil, 0) {
+					defForms[s] = true
+				}
+			}
+		}
+		for _, u := range uses {
+			for _, op := range nameOperands(u, prefix) {
+				for s := range nf.forms(op, nil, 0) {
+					useForms[s] = true
+				}
+			}
+		}
+		if ds, us := strings.Join(sortedBoolKeys(defForms), " | "), strings.Join(sortedBoolKeys(useForms), " | "); ds != us || strings.Contains(ds, "?") {
+			r.fail(rule, key, w.instrPos(defs[0].ins), fmt.Sprintf("the name a function is defined under and the name it is called by are not the same function of the packet's name (defined as %s<%s>, called as %s<%s>): a call whose name no definition produced is a nil global at run time; %d call site(s), e.g. %s", prefix, ds, prefix, us, len(uses), w.instrPos(uses[0].ins)))
+			continue
+		}
 		if fwd {
 			r.pass(rule, key, w.instrPos(defs[0].ins), "names are declared ahead of the definitions")
 			continue
 		}
-		// the loop(s) that emit the definitions for declared packets: call sites of the defining emitter outside itself
-		defFn := defs[0].fn
-		ordered, total := 0, 0
-		var bad string
-		for _, fn := range own {
-			if fn == defFn {
-				continue
+		// the defining emitters: the function with the definition site and every function that hands a packet of its own caller on
+		// to one (a wrapper that emits something around the definition)
+		defining := map[*ssa.Function]bool{}
+		for _, d := range defs {
+			defining[d.fn] = true
+		}
+		scope := append([]*ssa.Function(nil), own...)
+		packetArgs := func(c ssa.CallInstruction) []ssa.Value {
+			var out []ssa.Value
+			for _, a := range c.Common().Args {
+				a = stripIdentity(a)
+				if typeIs(a.Type(), modPath+"/internal/model", "Packet") {
+					out = append(out, a)
+				}
 			}
+			return out
+		}
+		for changed := true; changed; {
+			changed = false
+			for _, fn := range scope {
+				if defining[fn] {
+					continue
+				}
+				forEachInstr(fn, func(_ *ssa.BasicBlock, ins ssa.Instruction) {
+					c, ok := ins.(ssa.CallInstruction)
+					if !ok || !defining[calleeOf(c)] || defining[fn] {
+						return
+					}
+					for _, a := range packetArgs(c) {
+						if p, ok := a.(*ssa.Parameter); ok && p.Parent() == fn {
+							defining[fn] = true
+							changed = true
+						}
+					}
+				})
+			}
+		}
+		// the loop(s) that emit the definitions: call sites of a defining emitter whose packet is an element of a collection
+		ordered, total := 0, 0
+		var bad, badNested string
+		for _, fn := range scope {
 			forEachInstr(fn, func(b *ssa.BasicBlock, ins ssa.Instruction) {
 				c, ok := ins.(ssa.CallInstruction)
-				if !ok || calleeOf(c) != defFn {
+				if !ok || !defining[calleeOf(c)] {
 					return
 				}
 				// the packet argument: an element of which collection?
-				for _, a := range c.Common().Args {
-					a = stripIdentity(a)
-					if !typeIs(a.Type(), modPath+"/internal/model", "Packet") {
-						continue
-					}
+				for _, a := range packetArgs(c) {
 					ld, ok := a.(*ssa.UnOp)
 					if !ok {
 						continue
@@ -1433,8 +1524,16 @@ func c15HelpersDefinedFirst(w *World, wc *wireCtx, r *Report) {
 					if !ok {
 						continue
 					}
-					total++
 					coll := stripIdentity(ia.X)
+					// the objects declared inline in one packet (a list derived from its fields): their functions are emitted with the
+					// owner's; the list must put an object behind the objects declared inside it
+					if nested, orderOK := inlineObjectList(w, coll, scope); nested {
+						if !orderOK {
+							badNested = w.instrPos(ins)
+						}
+						continue
+					}
+					total++
 					if cc, ok := coll.(*ssa.Call); ok {
 						if g := calleeOf(cc); g != nil && dependenciesFirstOrder(w, g) {
 							ordered++
@@ -1446,6 +1545,8 @@ func c15HelpersDefinedFirst(w *World, wc *wireCtx, r *Report) {
 			})
 		}
 		switch {
+		case badNested != "":
+			r.fail(rule, key, badNested, fmt.Sprintf("the definitions for the objects declared inline in a packet are emitted in the order of a list that puts an object in front of the objects declared inside it, and the names are not declared ahead: the outer object's function calls %s<inner> before that local exists (a nil global at run time); %d call site(s), e.g. %s", prefix, len(uses), w.instrPos(uses[0].ins)))
 		case total == 0:
 			r.fail(rule, key, w.instrPos(defs[0].ins), "the place where the per-packet definitions are emitted for the declared packets was not found")
 		case ordered == total:
@@ -1457,7 +1558,8 @@ func c15HelpersDefinedFirst(w *World, wc *wireCtx, r *Report) {
 }
 
 // dependenciesFirstOrder: g returns a packet list built by a visited-set walk that descends into the packets of by-name object
-// fields and of match pairs and appends a packet only after the descent.
+// fields and of match pairs and appends a packet only after the descent. The packet the walk descends into is the attribute's /
+// the table's packet itself or an element of a list of such packets computed first (the callees of a packet as a slice).
 func dependenciesFirstOrder(w *World, g *ssa.Function) bool {
 	if g == nil || g.Blocks == nil {
 		return false
@@ -1485,6 +1587,24 @@ func dependenciesFirstOrder(w *World, g *ssa.Function) bool {
 	}
 	addFn(g, 0)
 	viaObject, viaMatch, postOrder, visitedSet := false, false, false, false
+	isPacketTable := func(m ssa.Value) bool {
+		mt, ok := m.Type().Underlying().(*types.Map)
+		return ok && typeIs(mt.Elem(), modPath+"/internal/model", "Packet")
+	}
+	origin := func(a ssa.Value) {
+		a = stripIdentity(a)
+		if isRefPacketLoad(a) {
+			viaObject = true
+		}
+		if lk, ok := a.(*ssa.Lookup); ok && isPacketTable(lk.X) && pairFieldOf(lk.Index) == "Value" {
+			viaMatch = true
+		}
+		if ex, ok := a.(*ssa.Extract); ok {
+			if lk, ok := ex.Tuple.(*ssa.Lookup); ok && isPacketTable(lk.X) && pairFieldOf(lk.Index) == "Value" {
+				viaMatch = true
+			}
+		}
+	}
 	for _, fn := range cluster {
 		var descents, appends []ssa.Instruction
 		forEachInstr(fn, func(b *ssa.BasicBlock, ins ssa.Instruction) {
@@ -1504,23 +1624,15 @@ func dependenciesFirstOrder(w *World, g *ssa.Function) bool {
 					if !typeIs(a.Type(), modPath+"/internal/model", "Packet") {
 						continue
 					}
+					origin(a)
+					// an element of a list computed before the descent: what the list is filled with
 					if ld, ok := a.(*ssa.UnOp); ok && ld.Op == token.MUL {
-						if fa, ok := ld.X.(*ssa.FieldAddr); ok {
-							if tn, f, _, _ := fieldOf(fa); tn == "ObjectFieldAttribute" && f == "RefPacket" {
-								viaObject = true
+						if ia, ok := ld.X.(*ssa.IndexAddr); ok {
+							lw := &packetListWalk{scope: cluster}
+							lw.walk(ia.X, 0)
+							for _, e := range lw.elems {
+								origin(e.val)
 							}
-						}
-					}
-					isPacketTable := func(m ssa.Value) bool {
-						mt, ok := m.Type().Underlying().(*types.Map)
-						return ok && typeIs(mt.Elem(), modPath+"/internal/model", "Packet")
-					}
-					if lk, ok := a.(*ssa.Lookup); ok && isPacketTable(lk.X) && pairFieldOf(lk.Index) == "Value" {
-						viaMatch = true
-					}
-					if ex, ok := a.(*ssa.Extract); ok {
-						if lk, ok := ex.Tuple.(*ssa.Lookup); ok && isPacketTable(lk.X) && pairFieldOf(lk.Index) == "Value" {
-							viaMatch = true
 						}
 					}
 				}
@@ -1542,6 +1654,433 @@ func dependenciesFirstOrder(w *World, g *ssa.Function) bool {
 		}
 	}
 	return viaObject && viaMatch && postOrder && visitedSet
+}
+
+// isRefPacketLoad: v reads the packet of an object attribute (ObjectFieldAttribute.RefPacket).
+func isRefPacketLoad(v ssa.Value) bool {
+	if ld, ok := stripIdentity(v).(*ssa.UnOp); ok && ld.Op == token.MUL {
+		if fa, ok := ld.X.(*ssa.FieldAddr); ok {
+			if tn, f, _, _ := fieldOf(fa); tn == "ObjectFieldAttribute" && f == "RefPacket" {
+				return true
+			}
+		}
+	}
+	return false
+}
+
+// packetListWalk collects what a slice value may hold: the operands of the appends that feed it, through phis, reslicing, spread
+// appends of other lists, the results of repo functions (their return values), slice parameters (the arguments at the call sites
+// within scope and within the functions entered) and record members (what is stored into the member).
+type packetListWalk struct {
+	scope   []*ssa.Function
+	elems   []packetListElem
+	entered []*ssa.Function // repo functions whose result is (part of) the list
+	unknown bool            // some contribution could not be followed
+	seen    map[ssa.Value]bool
+}
+
+type packetListElem struct {
+	val ssa.Value
+	by  *ssa.Call // the append
+}
+
+func (lw *packetListWalk) funcs() []*ssa.Function {
+	out := append([]*ssa.Function(nil), lw.scope...)
+	for _, f := range lw.entered {
+		dup := false
+		for _, g := range out {
+			if g == f {
+				dup = true
+			}
+		}
+		if !dup {
+			out = append(out, f)
+		}
+	}
+	return out
+}
+
+func (lw *packetListWalk) walk(v ssa.Value, depth int) {
+	if v == nil {
+		return
+	}
+	v = stripIdentity(v)
+	if lw.seen == nil {
+		lw.seen = map[ssa.Value]bool{}
+	}
+	if lw.seen[v] {
+		return
+	}
+	lw.seen[v] = true
+	if depth > 12 {
+		lw.unknown = true
+		return
+	}
+	switch x := v.(type) {
+	case *ssa.Const:
+		if !x.IsNil() {
+			lw.unknown = true
+		}
+	case *ssa.MakeSlice:
+	case *ssa.Slice:
+		if _, isArr := x.X.(*ssa.Alloc); isArr {
+			for _, o := range variadicOperands(x) {
+				if o != nil {
+					lw.elems = append(lw.elems, packetListElem{o, nil})
+				}
+			}
+			return
+		}
+		lw.walk(x.X, depth+1)
+	case *ssa.Phi:
+		for _, e := range x.Edges {
+			lw.walk(e, depth+1)
+		}
+	case *ssa.Extract:
+		if c, ok := x.Tuple.(*ssa.Call); ok {
+			lw.results(c, x.Index, depth)
+		} else {
+			lw.unknown = true
+		}
+	case *ssa.Call:
+		if bi, ok := x.Call.Value.(*ssa.Builtin); ok {
+			if bi.Name() != "append" || len(x.Call.Args) != 2 {
+				lw.unknown = true
+				return
+			}
+			lw.walk(x.Call.Args[0], depth+1)
+			if sl, ok := stripIdentity(x.Call.Args[1]).(*ssa.Slice); ok {
+				if _, isArr := sl.X.(*ssa.Alloc); isArr {
+					for _, o := range variadicOperands(sl) {
+						if o != nil {
+							lw.elems = append(lw.elems, packetListElem{o, x})
+						}
+					}
+					return
+				}
+			}
+			lw.walk(x.Call.Args[1], depth+1)
+			return
+		}
+		lw.results(x, 0, depth)
+	case *ssa.Parameter:
+		fn := x.Parent()
+		idx := -1
+		for i, p := range fn.Params {
+			if p == x {
+				idx = i
+			}
+		}
+		sites := 0
+		for _, f := range lw.funcs() {
+			forEachInstr(f, func(_ *ssa.BasicBlock, ins ssa.Instruction) {
+				c, ok := ins.(ssa.CallInstruction)
+				if !ok || calleeOf(c) != fn {
+					return
+				}
+				args := c.Common().Args
+				if c.Common().StaticCallee() == nil {
+					// a closure value: no receiver among the arguments, bound variables are not parameters
+					if idx < len(args) {
+						sites++
+						lw.walk(args[idx], depth+1)
+					}
+					return
+				}
+				if idx >= 0 && idx < len(args) {
+					sites++
+					lw.walk(args[idx], depth+1)
+				}
+			})
+		}
+		if sites == 0 {
+			lw.unknown = true
+		}
+	case *ssa.UnOp:
+		if x.Op != token.MUL {
+			lw.unknown = true
+			return
+		}
+		switch addr := x.X.(type) {
+		case *ssa.FieldAddr:
+			// a record member: what is stored into the same member of the same record type
+			st := 0
+			for _, f := range lw.funcs() {
+				forEachInstr(f, func(_ *ssa.BasicBlock, ins ssa.Instruction) {
+					s, ok := ins.(*ssa.Store)
+					if !ok {
+						return
+					}
+					fa, ok := s.Addr.(*ssa.FieldAddr)
+					if !ok || fa.Field != addr.Field || !types.Identical(fa.X.Type(), addr.X.Type()) {
+						return
+					}
+					st++
+					lw.walk(s.Val, depth+1)
+				})
+			}
+			if st == 0 {
+				lw.unknown = true
+			}
+		case *ssa.Alloc, *ssa.FreeVar:
+			// a local variable captured by closures: what is stored into the cell
+			cell := cellOfAddr(addr)
+			if cell == nil {
+				lw.unknown = true
+				return
+			}
+			st := 0
+			for _, f := range lw.funcs() {
+				forEachInstr(f, func(_ *ssa.BasicBlock, ins ssa.Instruction) {
+					s, ok := ins.(*ssa.Store)
+					if !ok {
+						return
+					}
+					if cellOfAddr(s.Addr) != cell {
+						return
+					}
+					st++
+					lw.walk(s.Val, depth+1)
+				})
+			}
+			if st == 0 {
+				lw.unknown = true
+			}
+		default:
+			lw.unknown = true
+		}
+	default:
+		lw.unknown = true
+	}
+}
+
+// results: the idx-th result of a call of a repo function
+func (lw *packetListWalk) results(c *ssa.Call, idx int, depth int) {
+	g := calleeOf(c)
+	if g == nil || g.Blocks == nil {
+		lw.unknown = true
+		return
+	}
+	dup := false
+	for _, f := range lw.entered {
+		if f == g {
+			dup = true
+		}
+	}
+	if !dup {
+		lw.entered = append(lw.entered, g)
+	}
+	forEachInstr(g, func(_ *ssa.BasicBlock, ins ssa.Instruction) {
+		if ret, ok := ins.(*ssa.Return); ok && idx < len(ret.Results) {
+			lw.walk(ret.Results[idx], depth+1)
+		}
+	})
+}
+
+// inlineObjectList: coll is a list of the objects declared inline in a packet - everything it may hold is the packet of an object
+// attribute, gathered from fields by the functions the list comes from. orderOK: no such function appends an object and
+// afterwards what it gathers from a descent (the objects declared inside), i.e. the list is innermost-first.
+func inlineObjectList(w *World, coll ssa.Value, scope []*ssa.Function) (nested, orderOK bool) {
+	if _, isCall := stripIdentity(coll).(*ssa.Call); !isCall {
+		return false, false
+	}
+	lw := &packetListWalk{}
+	lw.walk(coll, 0)
+	if lw.unknown || len(lw.elems) == 0 || len(lw.entered) == 0 {
+		return false, false
+	}
+	for _, e := range lw.elems {
+		if !isRefPacketLoad(e.val) {
+			return false, false
+		}
+	}
+	entered := map[*ssa.Function]bool{}
+	for _, f := range lw.entered {
+		entered[f] = true
+	}
+	orderOK = true
+	for _, f := range lw.entered {
+		var descents []ssa.Instruction
+		forEachInstr(f, func(_ *ssa.BasicBlock, ins ssa.Instruction) {
+			if c, ok := ins.(ssa.CallInstruction); ok && entered[calleeOf(c)] {
+				descents = append(descents, ins)
+			}
+		})
+		for _, e := range lw.elems {
+			if e.by == nil || e.by.Parent() != f {
+				continue
+			}
+			for _, d := range descents {
+				if instrDominates(e.by, d) {
+					orderOK = false
+				}
+			}
+		}
+	}
+	return true, orderOK
+}
+
+// luaNameForms: the text an emitted name is, as a term over the packet's name: NAME for a packet's Name / the Value of a match
+// pair (the name a declared packet is found under), F(...) for a call of a function outside the repo, a quoted constant, a+b for a
+// concatenation; repo helpers are unfolded (their results with the parameters bound), a string parameter of the emitter stands for
+// what the call sites pass. A set: one term per way the value can come about. Terms with "?" are values that were not understood.
+type luaNameForms struct {
+	w     *World
+	scope []*ssa.Function
+	busy  map[ssa.Value]bool
+}
+
+func (nf *luaNameForms) forms(v ssa.Value, env map[*ssa.Parameter]map[string]bool, depth int) map[string]bool {
+	one := func(s string) map[string]bool { return map[string]bool{s: true} }
+	if v == nil {
+		return one("?nil")
+	}
+	v = stripIdentity(v)
+	if depth > 10 {
+		return one("?deep")
+	}
+	if nf.busy == nil {
+		nf.busy = map[ssa.Value]bool{}
+	}
+	if pairFieldOf(v) == "Value" {
+		if _, isPhi := v.(*ssa.Phi); !isPhi {
+			return one("NAME")
+		}
+	}
+	switch x := v.(type) {
+	case *ssa.Const:
+		if x.Value != nil && x.Value.Kind() == constant.String {
+			return one(strconv.Quote(constant.StringVal(x.Value)))
+		}
+		return one("?const")
+	case *ssa.Phi:
+		if nf.busy[x] {
+			return map[string]bool{}
+		}
+		nf.busy[x] = true
+		defer delete(nf.busy, x)
+		out := map[string]bool{}
+		for _, e := range x.Edges {
+			for s := range nf.forms(e, env, depth+1) {
+				out[s] = true
+			}
+		}
+		return out
+	case *ssa.BinOp:
+		if x.Op != token.ADD {
+			return one("?op")
+		}
+		out := map[string]bool{}
+		for a := range nf.forms(x.X, env, depth+1) {
+			for b := range nf.forms(x.Y, env, depth+1) {
+				out[a+"+"+b] = true
+			}
+		}
+		return out
+	case *ssa.UnOp:
+		if x.Op == token.MUL {
+			if fa, ok := x.X.(*ssa.FieldAddr); ok {
+				if tn, f, _, _ := fieldOf(fa); tn == "Packet" && f == "Name" {
+					return one("NAME")
+				} else {
+					return one("?" + tn + "." + f)
+				}
+			}
+		}
+		return one("?load")
+	case *ssa.Parameter:
+		if env != nil {
+			if s, ok := env[x]; ok {
+				return s
+			}
+		}
+		if nf.busy[x] {
+			return one("?recursive")
+		}
+		nf.busy[x] = true
+		defer delete(nf.busy, x)
+		fn := x.Parent()
+		idx := -1
+		for i, p := range fn.Params {
+			if p == x {
+				idx = i
+			}
+		}
+		out := map[string]bool{}
+		for _, f := range nf.scope {
+			forEachInstr(f, func(_ *ssa.BasicBlock, ins ssa.Instruction) {
+				c, ok := ins.(ssa.CallInstruction)
+				if !ok || c.Common().StaticCallee() != fn || idx < 0 || idx >= len(c.Common().Args) {
+					return
+				}
+				for s := range nf.forms(c.Common().Args[idx], nil, depth+1) {
+					out[s] = true
+				}
+			})
+		}
+		if len(out) == 0 {
+			return one("?parameter")
+		}
+		return out
+	case *ssa.Call:
+		g := x.Call.StaticCallee()
+		if g == nil {
+			return one("?call")
+		}
+		var args []map[string]bool
+		for _, a := range x.Call.Args {
+			if bt, ok := a.Type().Underlying().(*types.Basic); ok && bt.Info()&types.IsString != 0 {
+				args = append(args, nf.forms(a, env, depth+1))
+			} else {
+				args = append(args, nil)
+			}
+		}
+		if g.Blocks != nil && g.Pkg == nf.w.Parser {
+			// a repo helper: its results with the string parameters bound; a packet parameter's Name is NAME whatever the packet
+			env2 := map[*ssa.Parameter]map[string]bool{}
+			for i, p := range g.Params {
+				if i < len(args) && args[i] != nil {
+					env2[p] = args[i]
+				}
+			}
+			out := map[string]bool{}
+			forEachInstr(g, func(_ *ssa.BasicBlock, ins ssa.Instruction) {
+				if ret, ok := ins.(*ssa.Return); ok && len(ret.Results) == 1 {
+					for s := range nf.forms(ret.Results[0], env2, depth+1) {
+						out[s] = true
+					}
+				}
+			})
+			if len(out) == 0 {
+				return one("?helper")
+			}
+			return out
+		}
+		terms := []string{g.String() + "("}
+		first := true
+		for _, a := range args {
+			if a == nil {
+				continue
+			}
+			var next []string
+			for _, t := range terms {
+				for s := range a {
+					sep := ","
+					if first {
+						sep = ""
+					}
+					next = append(next, t+sep+s)
+				}
+			}
+			terms, first = next, false
+		}
+		out := map[string]bool{}
+		for _, t := range terms {
+			out[t+")"] = true
+		}
+		return out
+	}
+	return one("?" + strings.TrimPrefix(fmt.Sprintf("%T", v), "*ssa."))
 }
 
 // C07|C17/go-imports-used: the Go compiler rejects a file that imports a package it does not use.
